@@ -96,3 +96,23 @@ def _cvc5(solver, timeout_ms):
 def prove(hyps, goal, timeout_ms=10000):
     """Validity of hyps => goal. status 'unsat' means proved."""
     return check_sat(list(hyps) + [z3.Not(goal)], timeout_ms)
+
+
+def forall(vs, body, patterns=None):
+    """ForAll with triggers where z3 accepts them (terms with ite / arithmetic are not valid patterns)."""
+    if patterns and not any(_has_interp(p) for p in patterns):
+        try:
+            return z3.ForAll(vs, body, patterns=patterns)
+        except z3.Z3Exception:
+            pass
+    return z3.ForAll(vs, body)
+
+
+def _has_interp(t, _memo=None):
+    """True if the term contains ite/arithmetic/boolean structure (not allowed inside a trigger)."""
+    if z3.is_app(t):
+        k = t.decl().kind()
+        if k in (z3.Z3_OP_ITE, z3.Z3_OP_LT, z3.Z3_OP_LE, z3.Z3_OP_GT, z3.Z3_OP_GE, z3.Z3_OP_AND, z3.Z3_OP_OR, z3.Z3_OP_NOT, z3.Z3_OP_EQ):
+            return True
+        return any(_has_interp(c) for c in t.children())
+    return False
